@@ -588,6 +588,9 @@ func RunScript(c *ScriptCase) *ScriptOutcome {
 	if more := takeNew(); len(more) > 0 {
 		return fail("requests", fmt.Sprintf("requests after the end of the script: %v", more), gs)
 	}
+	if rep := RepeatedFlowID(in.Traces()); rep != "" {
+		return fail("flow-id-repeat", rep, gs)
+	}
 	sum := Summarize(in.Traces())
 	var unexpected []string
 	for _, e := range sum.Errors {
